@@ -15,7 +15,8 @@ for cfg in ("default",):
     for key, b in prog.bodies.items():
         if b.is_test():
             continue
-        ent = {"argc": b.argc, "locals": [[i, b.ty(l["ty"])["s"], l["name"]] for i, l in enumerate(b.locals) if l.get("name")]}
+        ent = {"argc": b.argc, "ret": b.ty(b.locals[0]["ty"])["s"], "unit": b.unit.name, "name": b.name, "closure": b.is_closure,
+               "locals": [[i, b.ty(l["ty"])["s"], l["name"]] for i, l in enumerate(b.locals) if l.get("name")]}
         if b.is_closure:
             caps = {}
             for blk in b.blocks:
